@@ -97,7 +97,7 @@ func runControls(dir string) *controlResult {
 			expect(n, bad, false, "error not accounted for")
 		}
 	}
-	for _, must := range []string{"BadErrDropped", "BadErrBlank", "BadErrSwallowed", "BadErrOverwritten", "BadErrUnrelatedReturn", "GoodErrReturned", "GoodErrChecked", "GoodErrSentinel", "GoodErrLoop", "GoodErrNamedResult", "(*box).GoodErrStickyField"} {
+	for _, must := range []string{"BadErrDropped", "BadErrBlank", "BadErrSwallowed", "BadErrOverwritten", "BadErrUnrelatedReturn", "GoodErrReturned", "GoodErrChecked", "GoodErrSentinel", "GoodErrSwitch", "BadErrSwitch", "GoodErrLoop", "GoodErrNamedResult", "(*box).GoodErrStickyField"} {
 		if _, ok := status[must]; !ok {
 			res.OK = false
 			res.Failures = append(res.Failures, "error-flow engine found no error-returning call in "+must)
